@@ -239,6 +239,19 @@ func runC17(e *core.Env) error {
 				c.Spec = spec
 			}
 			e.Add(c)
+			// independent reference: with no buffer, or a buffer at least as long as the value's minimal
+			// big-endian form, Encode yields that form left-padded with zeros to the buffer's length
+			ref := new(big.Int).SetUint64(v).Bytes()
+			if v == 0 {
+				ref = []byte{0} // zero is one zero byte
+			}
+			if pad < 0 || pad >= len(ref) {
+				want := ref
+				if pad > len(ref) {
+					want = append(make([]byte, pad-len(ref)), ref...)
+				}
+				e.Add(core.Case{Impl: impl, Spec: "ok " + core.Hex(want), Key: fmt.Sprintf("benc-ref %d %d", pad, v), Nontrivial: true, Tags: []string{"benc-reference"}})
+			}
 		}
 	}
 	for i := 0; i < e.N(2000, 30000); i++ {
